@@ -86,6 +86,21 @@ func (pConn *PFCPConn) handleSessionEstablishmentRequest(msg message.Message) (m
 			ie.CauseNoResourcesAvailable)
 	}
 
+	// errReleaseReply rejects the request after the session record was
+	// created: give back what has been allocated for it so far.
+	errReleaseReply := func(err error, cause uint8) (message.Message, error) {
+		if upf.ippool != nil {
+			// the address may have been allocated by the PDR that failed to parse
+			if errDealloc := upf.ippool.DeallocIP(session.localSEID); errDealloc == nil {
+				logger.PfcpLog.Debugln("released UE IP of rejected session", session.localSEID)
+			}
+		}
+
+		pConn.RemoveSession(session)
+
+		return errProcessReply(err, cause)
+	}
+
 	addPDRs := make([]pdr, 0, MaxItems)
 	addFARs := make([]far, 0, MaxItems)
 	addQERs := make([]qer, 0, MaxItems)
@@ -93,14 +108,14 @@ func (pConn *PFCPConn) handleSessionEstablishmentRequest(msg message.Message) (m
 	for _, cPDR := range sereq.CreatePDR {
 		var p pdr
 		if err = p.parsePDR(cPDR, session.localSEID, pConn.appPFDs, upf.ippool); err != nil {
-			return errProcessReply(err, ie.CauseRequestRejected)
+			return errReleaseReply(err, ie.CauseRequestRejected)
 		}
 
 		if p.UPAllocateFteid {
 			var fteid uint32
 			fteid, err = pConn.upf.fteidGenerator.Allocate()
 			if err != nil {
-				return errProcessReply(err, ie.CauseNoResourcesAvailable)
+				return errReleaseReply(err, ie.CauseNoResourcesAvailable)
 			}
 			p.tunnelTEID = fteid
 			p.tunnelTEIDMask = 0xFFFFFFFF
@@ -116,7 +131,7 @@ func (pConn *PFCPConn) handleSessionEstablishmentRequest(msg message.Message) (m
 	for _, cFAR := range sereq.CreateFAR {
 		var f far
 		if err = f.parseFAR(cFAR, session.localSEID, upf, create); err != nil {
-			return errProcessReply(err, ie.CauseRequestRejected)
+			return errReleaseReply(err, ie.CauseRequestRejected)
 		}
 
 		f.fseidIP = fseidIP
@@ -127,7 +142,7 @@ func (pConn *PFCPConn) handleSessionEstablishmentRequest(msg message.Message) (m
 	for _, cQER := range sereq.CreateQER {
 		var q qer
 		if err = q.parseQER(cQER, session.localSEID); err != nil {
-			return errProcessReply(err, ie.CauseRequestRejected)
+			return errReleaseReply(err, ie.CauseRequestRejected)
 		}
 
 		q.fseidIP = fseidIP
